@@ -140,9 +140,10 @@ class C12(Prop):
                 s = bytes(rng.randrange(256) for _ in range(n))
             rnd.append(s)
         allv = vals + bnd + rnd
+        # small batches: the shrinker drops one list element per round
         for p in (1, 2, 3):
-            for i in range(0, len(allv), 1000):
-                yield ["c12.timeouts", p, allv[i:i + 1000]]
+            for i in range(0, len(allv), 20):
+                yield ["c12.timeouts", p, allv[i:i + 20]]
 
     def gen_seq(self, rng, tier):
         n = 3000 if tier == "quick" else 60000
